@@ -72,7 +72,7 @@ fn main() {
             "C05" => {
                 let kf = report::KnownFindings::load();
                 let mut run = report::Run::new("C05", tier, "crashx");
-                rawx_run::add_crash(&mut run, &kf, "C05", tier, if tier == "quick" { 45 } else { 1800 });
+                rawx_run::add_crash(&mut run, &kf, "C05", tier, if tier == "quick" { 150 } else { 1800 });
                 run.cov("rule", serde_json::json!("breadth-first over operation histories (as rawx); for every transition, every event boundary of the operation (mmap write, set_len, sync begin/end, punch) is a crash point; at each crash point the crash images of both environments are materialised, opened with the real Database::open and judged; states are distinct by implementation state + durable image + dirty page versions"));
                 run.finish()
             }
@@ -81,7 +81,7 @@ fn main() {
                 let mut run = report::Run::new(p, tier, "rawx");
                 rawx_run::add(&mut run, &kf, p, tier, if tier == "quick" { 25 } else { 1000 });
                 if p == "C12" {
-                    rawx_run::add_crash(&mut run, &kf, "C12", tier, if tier == "quick" { 15 } else { 800 });
+                    rawx_run::add_crash(&mut run, &kf, "C12", tier, if tier == "quick" { 60 } else { 800 });
                     chessx::run_jobs(&mut run, &kf, "C12", chessx::plan("C12", tier), if tier == "quick" { 45 } else { 600 }, "C12");
                 }
                 if p == "C10" {
